@@ -517,8 +517,8 @@ class ExprMixin:
         if sv.pt in ("set", "frozenset"):
             # arbitrary iteration order: a fresh list whose members are exactly the set's, pairwise distinct
             o = self.fresh("order")
-            x = z3.Const("x", v.Val)
-            i, j = z3.Ints("i j")
+            x = self.bv("ox")
+            i, j = self.bv("oi", z3.IntSort()), self.bv("oj", z3.IntSort())
             st.facts.append(z3.ForAll([x], v.shas(o, x) == v.has(sv.t, x), patterns=[v.shas(o, x), v.has(sv.t, x)]))
             st.facts.append(z3.ForAll([x], z3.Implies(v.has(sv.t, x), z3.And(0 <= v.sidx(o, x), v.sidx(o, x) < v.slen(o), v.sat(o, v.sidx(o, x)) == x)),
                                       patterns=[v.has(sv.t, x)]))
